@@ -169,7 +169,8 @@ func checkLHS(
 	stmt *ast.AssignStmt,
 	expr ast.Expr,
 ) *ImmutableViolation {
-	switch e := expr.(type) {
+	// Parentheses around the written operand do not change what is written: (x.f) = v
+	switch e := ast.Unparen(expr).(type) {
 	case *ast.SelectorExpr:
 		return checkFieldAssignment(ctx, stmt, e)
 	case *ast.IndexExpr:
@@ -256,7 +257,7 @@ func checkIndexAssignment(
 	stmt *ast.AssignStmt,
 	index *ast.IndexExpr,
 ) *ImmutableViolation {
-	selector, ok := index.X.(*ast.SelectorExpr)
+	selector, ok := ast.Unparen(index.X).(*ast.SelectorExpr)
 	if !ok {
 		return nil
 	}
@@ -310,7 +311,7 @@ func checkIncDec(
 	var violations []ImmutableViolation
 
 	// Check for field increment/decrement: x.field++
-	if selector, ok := node.X.(*ast.SelectorExpr); ok {
+	if selector, ok := ast.Unparen(node.X).(*ast.SelectorExpr); ok {
 		violation := checkFieldIncDec(ctx, node, selector)
 		if violation != nil {
 			violations = append(violations, *violation)
@@ -393,7 +394,7 @@ func checkReceiverIncDec(
 	}
 
 	// Check if the increment/decrement is on the receiver: *receiver++
-	ident, ok := star.X.(*ast.Ident)
+	ident, ok := ast.Unparen(star.X).(*ast.Ident)
 	if !ok {
 		return nil
 	}
@@ -454,7 +455,7 @@ func checkCompoundLHS(
 	expr ast.Expr,
 	tok token.Token,
 ) *ImmutableViolation {
-	selector, ok := expr.(*ast.SelectorExpr)
+	selector, ok := ast.Unparen(expr).(*ast.SelectorExpr)
 	if !ok {
 		return nil
 	}
@@ -515,7 +516,7 @@ func checkReceiverReassignment(
 	}
 
 	// Check if the assignment is to the receiver: *r = value
-	ident, ok := star.X.(*ast.Ident)
+	ident, ok := ast.Unparen(star.X).(*ast.Ident)
 	if !ok {
 		return nil
 	}
